@@ -167,7 +167,9 @@ class FFDirector(SectionLineParser):
             self.current_block.make_edges_from_interactions()
             self.force_field.blocks[self.current_block.name] = self.current_block
 
-        if self.current_link is not None:
+        # The link context stays set after its section ended; only register it
+        # when it is a link section that just ended.
+        if self.current_link is not None and previous_section[:1] == ['link']:
             # add FF wide citations
             self.current_link.citations.update(self.citations)
             self.current_link.make_edges_from_interactions()
